@@ -137,6 +137,17 @@ fn exec2(s: &mut Session, sink: &mut Sink, req: &str) -> (String, Option<Node>) 
             log(s, sink, req.to_string(), resp.clone());
             (resp, None)
         }
+        "serialises" => {
+            let a = n(s, 1);
+            let resp = match guarded(|| s.xot.to_string(a)) {
+                Some(Ok(_)) => "1",
+                Some(Err(_)) => "0",
+                None => "panic",
+            }
+            .to_string();
+            log(s, sink, req.to_string(), resp.clone());
+            (resp, None)
+        }
         "clone_eq" => {
             let (a, b) = (n(s, 1), n(s, 2));
             let ta = read_tree(&s.xot, &mut s.vocab, a);
@@ -672,6 +683,12 @@ fn do_clone(s: &mut Session, sink: &mut Sink, src: usize, with_prefixes: bool, f
     s.exec(sink, "dump");
     s.exec(sink, "inv");
     exec2(s, sink, &format!("clone_eq {} {}", src, clone));
+    if !matches!(kind, "attribute" | "namespace") {
+        let root_label = s.label[&root];
+        exec2(s, sink, &format!("serialises {}", root_label));
+        exec2(s, sink, &format!("serialises {}", src));
+        exec2(s, sink, &format!("serialises {}", clone));
+    }
     let cx = CloneCtx { src, clone, kind, with_prefixes };
     check_clone(s, sink, &cx, &known_before, &dump_before, &src_tree_before, &inherited_before, root_serialised);
     Some((src, clone))
